@@ -8,12 +8,13 @@ GROUP = dict(
     aliases=[(SP, 'CtxPtr'), (PR, 'Promise'), (L, 'Latch'), ('babylon_vf::', '')],
     opaque_by_value=[SP],
     extern_re=[r'Promise<unsigned long,\s*babylon_vf::Sched>::'],
-    roots=[L + '::count_down', {'name': L + '::CountDownLatch', 'sig': '(size_t)'}],
+    roots=[L + '::count_down', {'name': L + '::CountDownLatch', 'sig': '(size_t)'}, {'name': L + '::CountDownLatch', 'sig': '&&'}],
     reviewed_compiler_conditionals=[],
     assumptions=['SC; the latch protocol: the amounts passed to count_down by all threads add up to the initial count (documented use), each amount >= 1',
                  'Promise<size_t>::set_value is a stub here; its own contract is discharged in group c08_future for FutureContext<int>'],
     jobs=[
         dict(id='C08.latch.count_down', enforce='Latch_count_down', covers=['g_my_sets == 1', 'g_other_sets == 1', 'g_my_sets + g_other_sets == 0']),
         dict(id='C08.latch.ctor', enforce='Latch_ctor__u64', covers=['g_my_sets == 1', 'g_my_sets == 0']),
+        dict(id='C08.latch.move_ctor', enforce='Latch_ctor__Sched_RR'),
     ],
 )
